@@ -176,8 +176,10 @@ CHECKS = {
     "C06": dict(
         category="proof",
         text="Theorems over all Unicode texts (Props/C06.v): the lexer model is total, its output tiles the text "
-             "(ordered, non-overlapping, on character boundaries, whitespace-only gaps, exactly one final Eof, lossless); "
-             "conformance with the lexical grammar for delimited lexeme sequences. The model is tied to "
+             "(ordered, non-overlapping, on character boundaries, whitespace-only gaps, exactly one final Eof, lossless). The "
+             "conformance half (longest match, keywords as whole words, literal values, comments: Spec/LexSpec.v Lexeme / "
+             "Delimited) is specified and decided per input by the check's independent reference lexer; its theorems "
+             "(C06_conformance*) are cited here only once Props/C06.v contains them. The model is tied to "
              "spl_frontend::lexer::lex by exhaustive small-scope + random differential runs judged by the Coq VM and the "
              "extracted model; an implementation-side oracle searches for failing inputs.",
         design_ref="DESIGN.md section 5, C06",
